@@ -2376,6 +2376,11 @@ impl TieredEngine {
             self.cache_strategy.invalidate(*doc_id);
         }
 
+        // Bulk loads bypass the hot tier, so a resident mirror of a reloaded document still
+        // carries the superseded vector and metadata. Drop it: metadata-filter scans over the
+        // hot tier (filtered batch delete) must never act on a stale copy.
+        self.hot_tier.batch_delete(doc_ids);
+
         // L1b caches search results, so bulk loads can change k-NN results even if
         // cached result sets do not explicitly include the newly loaded doc_ids.
         self.query_cache.clear();
